@@ -38,20 +38,28 @@ class DistinguisherMixin(abc.ABC):
         logger.info(f'Start update of distinguisher {self.__class__.__name__} with traces {traces.shape} and data {data.shape}.')
         o_shape = data.shape
         data = data.reshape((o_shape[0], -1))
-        try:
-            self._origin_shape
-        except AttributeError:
+        first_call = not hasattr(self, '_origin_shape')
+        if first_call:
             logger.debug('Initialize distinguisher state.')
+            initial_state = dict(vars(self))
             self._origin_shape = o_shape
             logger.debug(f'Origin shape {self._origin_shape}')
             mem = psutil.virtual_memory().available / 2 ** 30
             logger.debug(f'Memory usage before compute {mem} GB.')
-            self._initialize(traces=traces, data=data)
+        try:
+            if first_call:
+                self._initialize(traces=traces, data=data)
 
-        self._check(traces=traces, data=data)
+            self._check(traces=traces, data=data)
 
-        logger.info('Will call _update traces.')
-        self._update(traces=traces, data=data)
+            logger.info('Will call _update traces.')
+            self._update(traces=traces, data=data)
+        except Exception:
+            if first_call:
+                # A refused first call must not leave a half-initialized state behind: a later valid call starts from scratch.
+                vars(self).clear()
+                vars(self).update(initial_state)
+            raise
         self.processed_traces += traces.shape[0]
 
     @abc.abstractmethod
